@@ -725,7 +725,12 @@ def short(o):
     if o[0] == 'raise':
         return '%s(%r)' % (o[1], o[2][:90])
     if o[0] == 'ret':
-        log = '' if o[4] is None else ' log=%s' % (list(o[4][:6]),)
+        if o[4] is None:
+            log = ''
+        else:
+            # check-time entries ('C', n) are collapsed; the entries about input / expect are what matters
+            ents = [l for l in o[4] if l[0] != 'C']
+            log = ' log=%s+%d check entries' % (ents, len(o[4]) - len(ents))
         return 'ok=%r grade=%r msg=%r%s' % (o[1], o[2], o[3][:60], log)
     return repr(o)[:160]
 
@@ -1117,8 +1122,8 @@ def construction_checks(ctx, res):
     from mitxgraders.baseclasses import ItemGrader, AbstractGrader
     before = settings_snapshot()
     try:
-        StringGrader.register_defaults({'case_sensitive': False})
         ItemGrader.register_defaults({'wrong_msg': 'W'})
+        StringGrader.register_defaults({'case_sensitive': False})
         mid = settings_snapshot()
         g = StringGrader(answers='Cat')
         r1 = core.guarded(g, None, 'cat')
@@ -1258,6 +1263,17 @@ def run(ctx):
         k = finding_of(w) or 'UNCLASSIFIED'
         by[k] = by.get(k, 0) + 1
     res.distribution['witnesses_by_finding'] = by
+    # one representative per finding first (the driver prints the first few distinct witnesses)
+    first, rest, seen = [], [], set()
+    for w in sorted(res.witnesses, key=lambda w: (len(w.get('events', w.get('calls', []))), w.get('grader', '') != 'SingleListGrader',
+                                                  w.get('key', ''))):
+        k = finding_of(w) or ('UNCLASSIFIED', w.get('kind'), w.get('grader'), w.get('world'))
+        if k not in seen:
+            seen.add(k)
+            first.append(w)
+        else:
+            rest.append(w)
+    res.witnesses = first + rest
     return res
 
 
